@@ -145,14 +145,22 @@ RecState = type("RecState", (_RecStateBase,), _mk_callbacks("state", ALL_EVENT_C
 class _RecFeatureBase(Feature):
     """A feature with history: rolling mean of the last k mid prices seen."""
 
-    def __init__(self, sink, tag, k=3, name=None):
+    def __init__(self, sink, tag, k=3, name=None, reads_account=False):
         self._sink = sink
         self._tag = tag
         self._k = k
         self._window = []
+        self._reads_account = reads_account
         super().__init__(name=name)
 
     def _on_event(self, event):
+        if self._reads_account and isinstance(event, EventNBBO) and getattr(self, "broker", None) is not None:
+            # a feature that looks at the account whenever a quote arrives (also between the quotes of one
+            # bar): valuing the account sweeps the margin accounts as a side effect, nothing else
+            try:
+                self.broker.net_liquidation_value(raise_if_broke=False)
+            except ValueError:
+                pass        # a held contract has no quote yet
         if isinstance(event, EventNBBO):
             m = event.mid_price
             if m == m:
@@ -292,7 +300,7 @@ class EnvHandle(object):
         if st.get("crash_on"):
             sink.crash_on[tag] = set(st["crash_on"])
         if st["type"] == "rec":
-            feats = [RecFeature(sink, tag, st.get("k", 3), name="roll")] if st.get("feature", True) else None
+            feats = [RecFeature(sink, tag, st.get("k", 3), name="roll", reads_account=bool(st.get("reads_account")))] if st.get("feature", True) else None
             self.state = RecState(sink, tag, feats)
         elif st["type"] == "window":
             self.state = RecWindowState(sink, tag, st["n"], st["window"], st.get("stride"))
